@@ -332,6 +332,12 @@ def collect_scenario():
     ok2 = r2[0] == "return" and all(len(q.attrs["updates"]) == 1 and q.attrs["updates"][0] == 0.0 and
                                     q.attrs["use_variables"] is True for q in qs)
     s.claim("train_begin_applies_to_all", ok2)
+    # a second fit() with the same callback (training split over several runs): the schedule goes on from num_iters and
+    # the factor must not drop back to the pre-training value in between (monotone schedule; seed c07-7)
+    n_before = [len(q.attrs["updates"]) for q in qs]
+    r3 = run_call(ip, ip.getattr(sch, "on_train_begin"), [])
+    s.claim("second_train_begin_keeps_factors", r3[0] == "return" and
+            [len(q.attrs["updates"]) for q in qs] == n_before)
     return s
   return scenario
 
